@@ -90,6 +90,13 @@ class _Group:
             return self.result
 
 
+def _buf(x):
+    """mpi4py buffer specifications: array, (array, datatype) or [array, count, datatype]."""
+    if isinstance(x, (tuple, list)) and len(x) >= 1 and isinstance(x[0], np.ndarray):
+        return x[0]
+    return np.asarray(x)
+
+
 def _compatible(a, b):
     return a == b
 
@@ -174,7 +181,7 @@ class Comm:
         return res[root]
 
     def Bcast(self, buf, root=0):
-        b = np.asarray(buf)
+        b = _buf(buf)
         res = self._x(('Bcast', root, b.size, str(b.dtype)), b.copy())
         if self.Get_rank() != root:
             b[...] = res[root].reshape(b.shape)
@@ -195,7 +202,8 @@ class Comm:
         return _reduce(res, op)
 
     def Reduce(self, sendbuf, recvbuf, op=SUM, root=0):
-        s = np.asarray(sendbuf)
+        s = _buf(sendbuf)
+        recvbuf = _buf(recvbuf) if recvbuf is not None else None
         res = self._x(('Reduce', op, root, s.size, str(s.dtype)), s.copy())
         if self.Get_rank() == root:
             out = res[0].copy()
@@ -204,7 +212,8 @@ class Comm:
             np.asarray(recvbuf)[...] = out.reshape(np.asarray(recvbuf).shape)
 
     def Allgather(self, sendbuf, recvbuf):
-        s = np.asarray(sendbuf).ravel()
+        s = _buf(sendbuf).ravel()
+        recvbuf = _buf(recvbuf)
         res = self._x(('Allgather', s.size, str(s.dtype)), s.copy())
         r = np.asarray(recvbuf).reshape(-1)
         n = s.size
@@ -214,7 +223,8 @@ class Comm:
             r[k * n:(k + 1) * n] = x
 
     def Alltoall(self, sendbuf, recvbuf):
-        s = np.asarray(sendbuf).ravel()
+        s = _buf(sendbuf).ravel()
+        recvbuf = _buf(recvbuf)
         p = self.Get_size()
         if s.size % p != 0:
             raise ValueError('Alltoall: send buffer size %d not divisible by %d' % (s.size, p))
@@ -228,7 +238,7 @@ class Comm:
             r[j * c:(j + 1) * c] = x[me * c:(me + 1) * c]
 
     def Gatherv(self, sendbuf, recvbuf, root=0):
-        s = np.asarray(sendbuf).ravel()
+        s = _buf(sendbuf).ravel()
         res = self._x(('Gatherv', root, str(s.dtype)), s.copy())
         if self.Get_rank() == root:
             buf, counts, displs, _ = recvbuf
